@@ -35,6 +35,36 @@ def mc_and_replay(v, wd, universe, k, big, name=None, workers=12, timeout=3000, 
     return r, rep
 
 
+OPT_CFG = """INIT Init
+NEXT Next
+CONSTANTS
+  K = %d
+  Big = FALSE
+INVARIANTS Synonyms Exported
+CHECK_DEADLOCK FALSE
+"""
+
+
+def option_spellings(v, wd, k):
+    """Options.tla: from option TEXT to the rule AST.  TLC enumerates every sequence of <= k option tokens
+    (every name and alias, negated or not, with good and bad values, unknown names) on plain and ||host^
+    patterns, blocking and exception; exports accept/reject and the Ideal verdicts of the parsed rule."""
+    r = vlib.run_tlc("MC_Opt", OPT_CFG % k, wd, "mc_opt", workers=12, timeout=3000, heap="12g")
+    if r["error"]:
+        raise vlib.ToolError("M1 failed on the option-spelling universe: " + r["error"][:2000])
+    v.add_tlc(r)
+    uni = [e for e in r["exports"] if e.get("k") == "universe"]
+    rest = [e for e in r["exports"] if e.get("k") != "universe"]
+    vlib.require(len(rest) > 300, "option-spelling universe exported only %d cases" % len(rest))
+    cases = os.path.join(wd, "cases_opt.jsonl")
+    vlib.write_jsonl(cases, uni + rest)
+    rep_path = os.path.join(wd, "report_opt.json")
+    vlib.run_harness(["replay", cases, rep_path], timeout=3000)
+    rep = vlib.load_report(rep_path)
+    v.add_report(rep, "M2:MC_Opt", traces=len(rest))
+    return rep
+
+
 def optimizer_selftest(v, wd):
     """Sensitivity of the M1 design property FuseSound (spec/Optimizer.tla): with the grouping key of
     the pinned tree (tag not part of the key, named deviation DevKeyIgnoresTag) TLC must find a list on
